@@ -208,6 +208,9 @@ def posify_index(shape, ind):
         return ind
     if isinstance(ind, np.ndarray | list) and not math.isnan(shape):
         ind = np.asanyarray(ind)
+        if ind.dtype.kind in "iu":
+            # the extent need not fit the dtype of the index array
+            ind = ind.astype(np.intp, copy=False)
         return np.where(ind < 0, ind + shape, ind)
     if isinstance(ind, slice):
         start, stop, step = ind.start, ind.stop, ind.step
